@@ -166,7 +166,7 @@ pub fn run(g: &mut Global) {
         "continuation inputs are finite (DESIGN.md section 4/C04: NaN ordering in Minimum/Maximum after reset is outside the claim)".into(),
         "agreement within 1e-12 relative as the property states; NaN compared equal to NaN".into(),
     ];
-    let depth = g.tier.pick(5usize, 6usize);
+    let depth = g.tier.pick(6usize, 7usize);
     // all histories of length 0..=depth: index space sum 5^d
     let mut offs = vec![0u64];
     for d in 0..=depth {
@@ -192,7 +192,7 @@ pub fn run(g: &mut Global) {
         &check,
     );
     let cap = g.tier.pick(256usize, 2048usize);
-    g.random("random", g.tier.pick(12000, 150000), &move || strategy(cap, false), &check);
+    g.random("random", g.tier.pick(60000, 300000), &move || strategy(cap, false), &check);
     if g.tier == Tier::Thorough {
         g.random("deep", 3000, &move || strategy(64, true), &check);
     }
